@@ -17,18 +17,24 @@ package iterable
 //@   requires iterOK(it)
 //@   ensures r0 == (it.pos < it.slen)
 
+// Next hands out seq[pos]; or - the imparity iterator.go documents: HasNext() was true but the element it pointed to,
+// the last one, was removed meanwhile - it returns (zero, false) and the sequence has ended (slen == pos).
 //@ assumed func (it Iterator[E]) Next() (E, bool)
 //@   requires iterOK(it)
-//@   modifies it.pos
-//@   ensures old(it.pos) <  it.slen ==> r1 && r0 == it.seq[old(it.pos)] && it.pos == old(it.pos) + 1
-//@   ensures old(it.pos) >= it.slen ==> !r1 && r0 == zero(E) && it.pos == old(it.pos)
+//@   modifies it.pos, it.slen
+//@   ensures old(it.pos) <  old(it.slen) ==> (r1 && r0 == it.seq[old(it.pos)] && it.pos == old(it.pos) + 1 && it.slen == old(it.slen)) || (!r1 && r0 == zero(E) && it.pos == old(it.pos) && it.slen == it.pos)
+//@   ensures old(it.pos) >= old(it.slen) ==> !r1 && r0 == zero(E) && it.pos == old(it.pos) && it.slen == old(it.slen)
 
 //@ assumed func (it Iterator[E]) Close() error
 
-// SelectF is an arbitrary but fixed (pure) relation
+// SelectF: its answers are modelled by an arbitrary fixed relation; its CALLS are counted (ghost), so that
+// "a decision, once taken, is not taken again" (HasNext idempotent, Next uses the cached decision) is a
+// statement that also covers selectors with internal state
 //@ spec sel(f SelectF[E], a E, b E) bool = uninterpreted
+//@ ghostfield SelectF.ncalls int
 //@ assumed func (f SelectF[E]) call(ev1 E, ev2 E) bool
-//@   ensures r0 == sel(f, ev1, ev2)
+//@   modifies f.ncalls
+//@   ensures r0 == sel(f, ev1, ev2) && f.ncalls == old(f.ncalls) + 1
 
 // ---- C18: Mixer = two-way merge ----
 // c1/c2: number of elements of each source already emitted (look-ahead not counted)
@@ -46,7 +52,12 @@ package iterable
 //@      (mr.st == 2 && !mr.src1.load ==> mr.src1.it.pos == mr.src1.it.slen) &&
 //@      (mr.st == 3 ==> !mr.src1.load && !mr.src2.load && mr.src1.it.pos == mr.src1.it.slen && mr.src2.it.pos == mr.src2.it.slen)
 // the first source's head is emitted next: it has one, and the selector prefers it or the second source is exhausted
-//@ pred (mr *Mixer[E]) first() = mr.c1() < mr.len1() && (mr.c2() >= mr.len2() || sel(mr.sf, mr.src1.it.seq[mr.c1()], mr.src2.it.seq[mr.c2()]))
+// (a, b: the numbers of elements already emitted; the lengths are those of the state the predicate is evaluated in)
+//@ pred (mr *Mixer[E]) firstAt(a int, b int) = a < mr.len1() && (b >= mr.len2() || sel(mr.sf, mr.src1.it.seq[a], mr.src2.it.seq[b]))
+// the next emission is decided (and cached)
+//@ pred (mr *Mixer[E]) decided() = mr.st != 0
+// nothing of the look-ahead / decision state and of the sources moved
+//@ pred (mr *Mixer[E]) untouched() = mr.st == old(mr.st) && mr.src1.load == old(mr.src1.load) && mr.src2.load == old(mr.src2.load) && mr.src1.e == old(mr.src1.e) && mr.src2.e == old(mr.src2.e) && mr.src1.it.pos == old(mr.src1.it.pos) && mr.src2.it.pos == old(mr.src2.it.pos) && mr.len1() == old(mr.len1()) && mr.len2() == old(mr.len2()) && mr.sf.ncalls == old(mr.sf.ncalls)
 
 //@ func (mr *Mixer[E]) selectState()
 //@   inline
@@ -64,24 +75,30 @@ package iterable
 //@ func (mr *Mixer[E]) HasNext() bool
 //@   props C18
 //@   requires mr.wf()
-//@   modifies mr.src1.load, mr.src1.e, mr.src2.load, mr.src2.e, mr.st, mr.src1.it.pos, mr.src2.it.pos
-//@   ensures mr.wf() && mr.c1() == old(mr.c1()) && mr.c2() == old(mr.c2())
+//@   modifies mr.src1.load, mr.src1.e, mr.src2.load, mr.src2.e, mr.st, mr.src1.it.pos, mr.src2.it.pos, mr.src1.it.slen, mr.src2.it.slen, mr.sf.ncalls
+//@   ensures mr.wf() && mr.c1() == old(mr.c1()) && mr.c2() == old(mr.c2()) && mr.len1() <= old(mr.len1()) && mr.len2() <= old(mr.len2())
 //@   ensures r0 == (mr.c1() < mr.len1() || mr.c2() < mr.len2())
+// idempotent: the call decides the next emission (at most one selector call) and a decided mixer is left exactly as it is
+//@   ensures mr.decided() && mr.sf.ncalls <= old(mr.sf.ncalls) + 1
+//@   ensures old(mr.decided()) ==> mr.untouched()
 
 //@ func (mr *Mixer[E]) Next() (E, bool)
 //@   props C18
 //@   requires mr.wf()
-//@   modifies mr.src1.load, mr.src1.e, mr.src2.load, mr.src2.e, mr.st, mr.src1.it.pos, mr.src2.it.pos
-//@   ensures mr.wf()
-//@   ensures old(mr.first()) ==> r1 && r0 == mr.src1.it.seq[old(mr.c1())] && mr.c1() == old(mr.c1()) + 1 && mr.c2() == old(mr.c2())
-//@   ensures !old(mr.first()) && old(mr.c2() < mr.len2()) ==> r1 && r0 == mr.src2.it.seq[old(mr.c2())] && mr.c2() == old(mr.c2()) + 1 && mr.c1() == old(mr.c1())
-//@   ensures !old(mr.first()) && !old(mr.c2() < mr.len2()) ==> !r1 && r0 == zero(E) && mr.c1() == old(mr.c1()) && mr.c2() == old(mr.c2())
+//@   modifies mr.src1.load, mr.src1.e, mr.src2.load, mr.src2.e, mr.st, mr.src1.it.pos, mr.src2.it.pos, mr.src1.it.slen, mr.src2.it.slen, mr.sf.ncalls
+//@   ensures mr.wf() && mr.len1() <= old(mr.len1()) && mr.len2() <= old(mr.len2())
+//@   ensures mr.firstAt(old(mr.c1()), old(mr.c2())) ==> r1 && r0 == mr.src1.it.seq[old(mr.c1())] && mr.c1() == old(mr.c1()) + 1 && mr.c2() == old(mr.c2())
+//@   ensures !mr.firstAt(old(mr.c1()), old(mr.c2())) && old(mr.c2()) < mr.len2() ==> r1 && r0 == mr.src2.it.seq[old(mr.c2())] && mr.c2() == old(mr.c2()) + 1 && mr.c1() == old(mr.c1())
+//@   ensures !mr.firstAt(old(mr.c1()), old(mr.c2())) && !(old(mr.c2()) < mr.len2()) ==> !r1 && r0 == zero(E) && mr.c1() == old(mr.c1()) && mr.c2() == old(mr.c2())
+// agrees with the preceding HasNext: a cached decision is used as it is (no selector call, no source moved before the emission)
+//@   ensures old(mr.decided()) ==> mr.sf.ncalls == old(mr.sf.ncalls) && mr.len1() == old(mr.len1()) && mr.len2() == old(mr.len2())
+//@   ensures mr.sf.ncalls <= old(mr.sf.ncalls) + 1
 
 //@ func (mr *Mixer[E]) Reset() error
 //@   props C18
 //@   requires mr.wf()
 //@   modifies mr.src1.load, mr.src1.e, mr.src2.load, mr.src2.e, mr.st, mr.src1.it.pos, mr.src2.it.pos
-//@   ensures r0 == nil ==> mr.wf() && mr.c1() == 0 && mr.c2() == 0
+//@   ensures r0 == nil ==> mr.wf() && mr.c1() == 0 && mr.c2() == 0 && !mr.decided()
 
 // ---- concrete iterators proved against the same model (abstraction: seq = ii.i, slen = len(ii.i), pos = ii.idx) ----
 
